@@ -646,3 +646,573 @@ Proof.
 Qed.
 
 End WithDeser.
+
+(** * 6. GetProgramInfo on built scripts *)
+
+Lemma int64_small z : (0 <= z < 9223372036854775808)%Z -> int64_of_Z z = z.
+Proof.
+  intro H. unfold int64_of_Z.
+  replace (z <? 0)%Z with false by (symmetry; apply Z.ltb_ge; lia).
+  change (Z.of_N two64) with 18446744073709551616%Z.
+  rewrite Z.abs_eq by lia. rewrite Z.mod_small by lia.
+  replace (z <? 18446744073709551616 / 2)%Z with true; [reflexivity|].
+  symmetry. apply Z.ltb_lt. change (18446744073709551616 / 2)%Z with 9223372036854775808%Z. lia.
+Qed.
+
+Lemma be_decode_single v : be_decode [v] = v.
+Proof. unfold be_decode. cbn [rev app le_decode]. lia. Qed.
+
+Lemma push_bytes_len d e : push_bytes d = Some e -> N.of_nat (length d) < two32 ->
+  (length d < length e <= length d + 5)%nat.
+Proof.
+  intros H Hl. assert (Hne : d <> []) by (intros ->; discriminate).
+  destruct (push_bytes_some d Hne Hl) as (hdr & Hp & c & rest & -> & _ & Hr).
+  rewrite Hp in H. assert (e = (c :: rest) ++ d) by congruence. subst e. rewrite app_length. cbn [length]. lia.
+Qed.
+
+Lemma push_num_some v : v <= 65535 -> exists e, push_num v = Some e /\ (1 <= length e <= 8)%nat.
+Proof.
+  intro Hv. destruct (N.eq_dec v 0) as [->|Hnz]; [exists [OP_PUSH0]; split; [reflexivity|simpl; lia]|].
+  destruct (N.le_gt_cases v 16).
+  - rewrite push_num_small by lia. eexists. split; [reflexivity|simpl; lia].
+  - rewrite push_num_big by lia. destruct (neo_big v ltac:(lia)) as (Hne & Hlen & _).
+    destruct (push_bytes_some _ Hne) as (hdr & Hp & c & rest & -> & _ & Hr); [unfold two32; lia|].
+    rewrite Hp. eexists. split; [reflexivity|]. rewrite app_length. simpl. lia.
+Qed.
+
+Lemma push_all_len ds : forall e, push_all ds = Some e ->
+  Forall (fun d => N.of_nat (length d) < two32) ds ->
+  (length ds <= length e)%nat /\ N.of_nat (length e) <= N.of_nat (length ds) * (two32 + 5).
+Proof.
+  induction ds as [|d ds IH]; intros e H Hf; simpl in H.
+  - injection H as <-. simpl. lia.
+  - inversion Hf; subst.
+    destruct (push_bytes d) as [a|] eqn:Ea; [|discriminate]. simpl in H.
+    destruct (push_all ds) as [b|] eqn:Eb; [|discriminate]. simpl in H. injection H as <-.
+    destruct (IH b eq_refl) as [I1 I2]; [assumption|].
+    pose proof (push_bytes_len d a Ea ltac:(assumption)).
+    rewrite app_length. cbn [length]. split; [lia|]. unfold two32 in *. lia.
+Qed.
+
+Lemma read_bytes_bad s c r : src_at s (c :: r) -> c = 0 \/ OP_PUSHDATA4 < c ->
+  read_bytes s = inr EUnexpectedOpcode.
+Proof.
+  intros Hs Hc. destruct (read_opcode_at s c r Hs) as (s1 & E & _). unfold read_bytes. rewrite E.
+  decide_eqb c OP_PUSHDATA4. decide_eqb c OP_PUSHDATA2. decide_eqb c OP_PUSHDATA1.
+  replace ((c <=? OP_PUSHBYTES75) && (OP_PUSHBYTES1 <=? c)) with false; [reflexivity|].
+  symmetry. apply andb_false_iff. rewrite N.leb_gt, N.leb_gt. op_consts. lia.
+Qed.
+
+Section Build.
+Variable deser : bytes -> option pubkey.
+(** DeserializePublicKey rejects every string of at most 3 bytes ("too short pubkey"). *)
+Hypothesis deser_short : forall b, (length b <= 3)%nat -> deser b = None.
+
+Lemma read_pubkeys_fail ks : forall fuel s enc m n cn r,
+  Forall (key_ok deser) ks -> push_all (map pk_ser ks) = Some enc ->
+  n <= 65535 -> push_num n = Some cn -> src_at s (enc ++ cn ++ r) ->
+  N.of_nat (length ks) < m -> exists e, read_pubkeys deser fuel s m = inr e.
+Proof.
+  induction ks as [|k ks IH]; intros fuel s enc m n cn r Hk Hp Hn Hc Hs Hm;
+    (destruct fuel as [|f]; [eexists; reflexivity|]); cbn [read_pubkeys];
+    replace (m =? 0) with false by (symmetry; apply N.eqb_neq; simpl in Hm; lia).
+  - simpl in Hp. injection Hp as <-. cbn [app] in Hs. unfold read_pubkey.
+    destruct (N.eq_dec n 0) as [->|Hnz].
+    + assert (cn = [OP_PUSH0]) by (unfold push_num in Hc; simpl in Hc; congruence). subst cn. cbn [app] in Hs.
+      rewrite (read_bytes_bad s _ _ Hs) by (left; reflexivity). eauto.
+    + destruct (N.le_gt_cases n 16).
+      * rewrite push_num_small in Hc by lia.
+        assert (cn = [OP_PUSH1 + n - 1]) by congruence. subst cn. cbn [app] in Hs.
+        rewrite (read_bytes_bad s _ _ Hs) by (right; op_consts; lia). eauto.
+      * rewrite push_num_big in Hc by lia. destruct (neo_big n ltac:(lia)) as (Hne & Hlen & _).
+        destruct (read_bytes_at s (neo_of_N n) cn r Hc) as (s1 & Er & _); [unfold two32; lia|exact Hs|].
+        rewrite Er, (deser_short _ Hlen). eauto.
+  - inversion Hk as [|? ? Hk1 Hk2]; subst. simpl in Hp.
+    destruct (push_bytes (pk_ser k)) as [a|] eqn:Ea; [|discriminate]. simpl in Hp.
+    destruct (push_all (map pk_ser ks)) as [b|] eqn:Eb; [|discriminate]. simpl in Hp.
+    injection Hp as <-. rewrite <- app_assoc in Hs.
+    destruct (read_pubkey_at deser s k a _ Hk1 Ea Hs) as (s1 & E1 & Hs1). rewrite E1.
+    destruct (IH f s1 b (m - 1) n cn r Hk2 eq_refl Hn Hc Hs1) as (e & Ee); [simpl in Hm; lia|].
+    rewrite Ee. eauto.
+Qed.
+
+(** The script PushNum(m) keys... PushNum(n) CHECKMULTISIG, n = number of keys pushed, in any key
+    order: parsed to exactly (keys, m) when (m, n) is valid, rejected otherwise. *)
+Theorem multi_script_parse m ks prog :
+  Forall (key_ok deser) ks -> m <= 65535 -> N.of_nat (length ks) <= 65535 ->
+  multi_script m ks (N.of_nat (length ks)) = Some prog ->
+  N.of_nat (length prog) < two64 ->
+  (multi_params_ok (Z.of_N m) (Z.of_nat (length ks)) = true -> get_program_info deser prog = inl (ks, m)) /\
+  (multi_params_ok (Z.of_N m) (Z.of_nat (length ks)) = false -> exists e, get_program_info deser prog = inr e).
+Proof.
+  intros Hk Hm Hn Hp Hlen. set (n := N.of_nat (length ks)) in *.
+  unfold multi_script in Hp.
+  destruct (push_num_some m Hm) as (cm & Ecm & Lcm). rewrite Ecm in Hp. simpl in Hp.
+  destruct (push_all (map pk_ser ks)) as [enc|] eqn:Eenc; [|discriminate]. simpl in Hp.
+  destruct (push_num_some n Hn) as (cn & Ecn & Lcn). rewrite Ecn in Hp. simpl in Hp.
+  injection Hp as <-.
+  assert (Hsers : Forall (fun d => N.of_nat (length d) < two32) (map pk_ser ks)).
+  { rewrite Forall_forall in *. intros d Hd. apply in_map_iff in Hd. destruct Hd as (k & <- & Hin).
+    destruct (Hk k Hin) as (_ & _ & H). exact H. }
+  destruct (push_all_len _ _ Eenc Hsers) as [Lenc _]. rewrite map_length in Lenc.
+  set (prog := cm ++ enc ++ cn ++ [OP_CHECKMULTISIG]) in *.
+  assert (Lprog : (length prog = length cm + length enc + length cn + 1)%nat)
+    by (unfold prog; rewrite !app_length; simpl; lia).
+  assert (Elast : last prog 0 = OP_CHECKMULTISIG).
+  { unfold prog. rewrite !app_assoc. apply last_last. }
+  assert (Hstart : src_at (src_new prog) (cm ++ enc ++ cn ++ [OP_CHECKMULTISIG])) by (apply src_at_new; exact Hlen).
+  destruct (read_num_at _ m cm _ Hm Ecm Hstart) as (s1 & E1 & Hs1).
+  unfold get_program_info.
+  replace (length prog <=? 2)%nat with false by (symmetry; apply Nat.leb_gt; lia).
+  rewrite Elast.
+  replace (OP_CHECKMULTISIG =? OP_CHECKSIG) with false by reflexivity. rewrite N.eqb_refl.
+  rewrite E1.
+  destruct (N.le_gt_cases m n) as [Hmn|Hmn].
+  - (* m <= n: the first m keys, then the remaining keys and the count as buffers *)
+    set (ks1 := firstn (N.to_nat m) ks). set (ks2 := skipn (N.to_nat m) ks).
+    assert (Eks : ks = ks1 ++ ks2) by (symmetry; apply firstn_skipn).
+    assert (L1 : length ks1 = N.to_nat m) by (unfold ks1; rewrite firstn_length; lia).
+    assert (Hk1 : Forall (key_ok deser) ks1) by (rewrite Eks in Hk; apply Forall_app in Hk; tauto).
+    assert (Hk2 : Forall (key_ok deser) ks2) by (rewrite Eks in Hk; apply Forall_app in Hk; tauto).
+    rewrite Eks, map_app in Eenc. destruct (push_all_app_inv _ _ _ Eenc) as (e1 & e2 & Ee1 & Ee2 & ->).
+    rewrite <- app_assoc in Hs1.
+    destruct (read_pubkeys_at deser ks1 (S (length prog)) s1 e1 _ Hk1 Ee1 Hs1) as (s2 & E2 & Hs2).
+    { rewrite Eks, app_length in Lenc. lia. }
+    rewrite L1, N2Nat.id in E2. rewrite E2.
+    assert (Hs2' : src_at s2 (e2 ++ cn ++ OP_CHECKMULTISIG :: [])) by exact Hs2.
+    destruct (read_buffers_at deser ks2 (S (length prog)) s2 e2 n cn [] Hk2 Ee2 Hn Ecn Hs2') as (s3 & E3 & Hs3).
+    { rewrite Eks, app_length in Lenc. lia. }
+    rewrite E3. rewrite (src_at_len _ _ Hs3). cbn [length N.of_nat N.eqb negb].
+    destruct (map pk_ser ks2 ++ [neo_of_N n]) as [|b0 bs] eqn:Eb; [destruct (map pk_ser ks2); discriminate|].
+    rewrite <- Eb. rewrite last_last, removelast_last, (deser_all_sers deser ks2 Hk2), <- Eks.
+    split; intro Hok.
+    + (* valid parameters: n <= 16, so the count buffer is the single byte n *)
+      assert (Hn16 : 1 <= n <= 16).
+      { unfold multi_params_ok, MULTI_SIG_MAX_PUBKEY_SIZE in Hok.
+        repeat (apply andb_prop in Hok; destruct Hok as [Hok ?]).
+        repeat match goal with H : (_ <=? _)%Z = true |- _ => apply Z.leb_le in H
+                             | H : (_ <? _)%Z = true |- _ => apply Z.ltb_lt in H end. lia. }
+      rewrite neo_small by exact Hn16. rewrite be_decode_single, int64_small by lia.
+      replace (Z.of_nat (length ks) =? Z.of_N n)%Z with true by (symmetry; apply Z.eqb_eq; lia).
+      cbn [negb]. replace (Z.of_N n) with (Z.of_nat (length ks)) by lia. rewrite Hok. reflexivity.
+    + destruct (Z.of_nat (length ks) =? int64_of_Z (Z.of_N (be_decode (neo_of_N n))))%Z eqn:Eq; cbn [negb].
+      * apply Z.eqb_eq in Eq. rewrite <- Eq, Hok. cbn [negb]. eauto.
+      * eauto.
+  - (* m > n: reading the (n+1)-th key runs into the count *)
+    intros. assert (Hs1' : src_at s1 (enc ++ cn ++ [OP_CHECKMULTISIG])) by exact Hs1.
+    destruct (read_pubkeys_fail ks (S (length prog)) s1 enc m n cn _ Hk Eenc Hn Ecn Hs1' Hmn) as (e & Ee).
+    rewrite Ee. split; intro Hok; [|eauto].
+    exfalso. unfold multi_params_ok in Hok.
+    repeat (apply andb_prop in Hok; destruct Hok as [Hok ?]).
+    repeat match goal with H : (_ <=? _)%Z = true |- _ => apply Z.leb_le in H end. lia.
+Qed.
+
+End Build.
+
+(** * 7. The property-level statements about built scripts *)
+
+Section Roundtrip.
+Variable deser : bytes -> option pubkey.
+
+Theorem parse_build_single_proof k : key_ok deser k ->
+  exists prog, program_from_pubkey k = Some prog /\ get_program_info deser prog = inl ([k], 1).
+Proof.
+  intros Hk. assert (Hk' := Hk). destruct Hk' as (Hd & Hne & Hl).
+  destruct (push_bytes_some _ Hne Hl) as (hdr & Hp & c & rest & -> & Hc & Hr).
+  unfold program_from_pubkey. rewrite Hp. cbn [obind].
+  eexists. split; [reflexivity|].
+  set (enc := (c :: rest) ++ pk_ser k) in *.
+  assert (Lser : (1 <= length (pk_ser k))%nat) by (destruct (pk_ser k); [congruence|simpl; lia]).
+  assert (Lenc : (length enc = S (length rest) + length (pk_ser k))%nat) by (unfold enc; rewrite app_length; reflexivity).
+  unfold get_program_info.
+  replace (length (enc ++ [OP_CHECKSIG]) <=? 2)%nat with false
+    by (symmetry; apply Nat.leb_gt; rewrite app_length; cbn [length]; lia).
+  rewrite last_last, N.eqb_refl, removelast_last.
+  assert (Hs : src_at (src_new enc) (enc ++ [])).
+  { rewrite app_nil_r. apply src_at_new. unfold two32, two64 in *. lia. }
+  destruct (read_pubkey_at deser _ k enc [] Hk Hp Hs) as (s1 & E & Hs1).
+  rewrite E, (src_at_len _ _ Hs1). reflexivity.
+Qed.
+
+Lemma key_ok_perm l l' : Permutation l l' -> Forall (key_ok deser) l -> Forall (key_ok deser) l'.
+Proof.
+  intros P H. rewrite Forall_forall in *. intros z Hz. apply H. eapply Permutation_in; [symmetry; exact P|exact Hz].
+Qed.
+
+Lemma multi_params_bounds m n : multi_params_ok m n = true -> (1 <= m <= n /\ 2 <= n <= 16)%Z.
+Proof.
+  unfold multi_params_ok, MULTI_SIG_MAX_PUBKEY_SIZE. intro H.
+  repeat (apply andb_prop in H; destruct H as [H ?]).
+  repeat match goal with H : (_ <=? _)%Z = true |- _ => apply Z.leb_le in H
+                       | H : (_ <? _)%Z = true |- _ => apply Z.ltb_lt in H end. lia.
+Qed.
+
+Hypothesis deser_short : forall b, (length b <= 3)%nat -> deser b = None.
+
+Theorem parse_build_multi_proof keys m :
+  Forall (key_ok deser) keys -> multi_params_ok m (Z.of_nat (length keys)) = true ->
+  exists prog, program_from_multi_pubkey keys m = BOk prog /\
+               get_program_info deser prog = inl (sort_keys keys, Z.to_N m).
+Proof.
+  intros Hk Hok. pose proof (multi_params_bounds _ _ Hok) as B.
+  assert (Hks : Forall (key_ok deser) (sort_keys keys)) by (eapply key_ok_perm; [symmetry; apply sort_keys_perm|exact Hk]).
+  unfold program_from_multi_pubkey. rewrite Hok. cbn [negb].
+  rewrite sort_keys_length.
+  rewrite (N.mod_small (Z.to_N m)) by lia. rewrite (N.mod_small (N.of_nat (length keys))) by lia.
+  destruct (push_num_some (Z.to_N m) ltac:(lia)) as (cm & Ecm & Lcm).
+  destruct (push_all_ok deser _ Hks) as (enc & Eenc).
+  destruct (push_num_some (N.of_nat (length keys)) ltac:(lia)) as (cn & Ecn & Lcn).
+  assert (Ems : multi_script (Z.to_N m) (sort_keys keys) (N.of_nat (length keys)) = Some (cm ++ enc ++ cn ++ [OP_CHECKMULTISIG])).
+  { unfold multi_script. rewrite Ecm. cbn [obind]. rewrite Eenc. cbn [obind]. rewrite Ecn. reflexivity. }
+  rewrite Ems. eexists. split; [reflexivity|].
+  assert (Hsers : Forall (fun d => N.of_nat (length d) < two32) (map pk_ser (sort_keys keys))).
+  { rewrite Forall_forall in *. intros d Hd. apply in_map_iff in Hd. destruct Hd as (k & <- & Hin).
+    destruct (Hks k Hin) as (_ & _ & H). exact H. }
+  destruct (push_all_len _ _ Eenc Hsers) as [_ Lenc]. rewrite map_length, sort_keys_length in Lenc.
+  rewrite <- (sort_keys_length keys) in Ems.
+  destruct (multi_script_parse deser deser_short (Z.to_N m) (sort_keys keys) (cm ++ enc ++ cn ++ [OP_CHECKMULTISIG]) Hks) as [P _]; try exact Ems.
+  - lia.
+  - rewrite sort_keys_length. lia.
+  - rewrite !app_length. cbn [length]. unfold two32, two64 in *. lia.
+  - apply P. rewrite sort_keys_length, Z2N.id by lia. exact Hok.
+Qed.
+
+(** A hand-assembled script that declares an invalid threshold or key count is rejected. *)
+Theorem bad_params_script_rejected_proof m ks prog :
+  Forall (key_ok deser) ks -> m <= 65535 -> N.of_nat (length ks) <= 65535 ->
+  multi_script m ks (N.of_nat (length ks)) = Some prog -> N.of_nat (length prog) < two64 ->
+  multi_params_ok (Z.of_N m) (Z.of_nat (length ks)) = false ->
+  exists e, get_program_info deser prog = inr e.
+Proof.
+  intros Hk Hm Hn Hp Hl Hbad.
+  destruct (multi_script_parse deser deser_short m ks prog Hk Hm Hn Hp Hl) as [_ P]. exact (P Hbad).
+Qed.
+
+End Roundtrip.
+
+(** The builder and the address function reject exactly the invalid (m, n). *)
+Theorem builder_rejects_iff keys m :
+  program_from_multi_pubkey keys m = BErrParam <-> multi_params_ok m (Z.of_nat (length keys)) = false.
+Proof.
+  unfold program_from_multi_pubkey. destruct (multi_params_ok m (Z.of_nat (length keys))); cbn [negb].
+  - split; [|discriminate]. destruct (multi_script _ _ _); discriminate.
+  - tauto.
+Qed.
+
+Section AddressProofs.
+Variable H : bytes -> bytes.
+Variable Keth : bytes -> bytes.
+
+Theorem address_rejects_iff keys m :
+  address_from_multi_pubkeys H keys m = AErrParam <-> multi_params_ok m (Z.of_nat (length keys)) = false.
+Proof.
+  unfold address_from_multi_pubkeys, program_from_multi_pubkey.
+  destruct (multi_params_ok m (Z.of_nat (length keys))); cbn [negb].
+  - split; [|discriminate]. destruct (multi_script _ _ _); discriminate.
+  - tauto.
+Qed.
+
+Theorem program_perm_invariant keys keys' m :
+  Forall key_known keys -> keys_canon keys -> Permutation keys keys' ->
+  program_from_multi_pubkey keys m = program_from_multi_pubkey keys' m.
+Proof.
+  intros Hk Hc P. unfold program_from_multi_pubkey.
+  rewrite (sort_keys_perm_invariant keys keys' Hk Hc P), (Permutation_length P). reflexivity.
+Qed.
+
+Theorem addr_perm_invariant_proof keys keys' m :
+  Forall key_known keys -> keys_canon keys -> Permutation keys keys' ->
+  address_from_multi_pubkeys H keys m = address_from_multi_pubkeys H keys' m.
+Proof.
+  intros Hk Hc P. unfold address_from_multi_pubkeys.
+  rewrite (program_perm_invariant keys keys' m Hk Hc P), (Permutation_length P). reflexivity.
+Qed.
+
+Theorem bookkeepers_perm_invariant keys keys' :
+  Forall key_known keys -> keys_canon keys -> Permutation keys keys' ->
+  address_from_bookkeepers H Keth keys = address_from_bookkeepers H Keth keys'.
+Proof.
+  intros Hk Hc P. unfold address_from_bookkeepers.
+  destruct keys as [|a [|b r]].
+  - apply Permutation_nil in P. subst. reflexivity.
+  - apply Permutation_length_1_inv in P. subst. reflexivity.
+  - assert (L := Permutation_length P).
+    destruct keys' as [|a' [|b' r']]; try discriminate.
+    rewrite (addr_perm_invariant_proof _ _ _ Hk Hc P), L. reflexivity.
+Qed.
+
+End AddressProofs.
+
+(** * 8. Every accepted script has valid parameters *)
+
+Theorem accepted_params_valid_proof deser prog ks m :
+  get_program_info deser prog = inl (ks, m) ->
+  (last prog 0 = OP_CHECKSIG /\ length ks = 1%nat /\ m = 1) \/
+  (last prog 0 = OP_CHECKMULTISIG /\ multi_params_ok (Z.of_N m) (Z.of_nat (length ks)) = true).
+Proof.
+  unfold get_program_info. cbv zeta.
+  destruct (length prog <=? 2)%nat; [discriminate|].
+  destruct (N.eqb_spec (last prog 0) OP_CHECKSIG) as [E1|E1].
+  - destruct (read_pubkey deser _) as [[k s1]|e]; [|discriminate].
+    destruct (src_len s1 =? 0); [|discriminate].
+    intro H. injection H as <- <-. left. auto.
+  - destruct (N.eqb_spec (last prog 0) OP_CHECKMULTISIG) as [E2|E2]; [|discriminate].
+    destruct (read_num _) as [[m0 s1]|e]; [|discriminate].
+    destruct (read_pubkeys deser _ s1 m0) as [[keys1 s2]|e]; [|discriminate].
+    destruct (read_buffers _ s2) as [[buffers s3]|e]; [|discriminate].
+    destruct (negb (src_len s3 =? 0)); [discriminate|].
+    destruct buffers as [|b0 bs]; [discriminate|].
+    destruct (deser_all deser _) as [keys2|]; [|discriminate].
+    destruct (Z.eqb_spec (Z.of_nat (length (keys1 ++ keys2))) (int64_of_Z (Z.of_N (be_decode (last (b0 :: bs) []))))) as [En|En];
+      cbn [negb]; [|discriminate].
+    destruct (multi_params_ok (Z.of_N m0) _) eqn:Eok; cbn [negb]; [|discriminate].
+    intro H. injection H as <- <-. right. split; [exact E2|]. rewrite En. exact Eok.
+Qed.
+
+(** * 9. The parser is total and stays inside its buffer *)
+
+Lemma read_opcode_ok s c s' : src_ok s -> read_opcode s = inl (c, s') ->
+  buf s' = buf s /\ off s' = S (off s) /\ (off s < length (buf s))%nat /\ src_ok s'.
+Proof.
+  intros Hok. unfold read_opcode. pose proof (next_byte_spec s Hok) as P.
+  destruct (next_byte s) as [[v e] s1]. destruct e; [discriminate|].
+  intro H. injection H as <- <-. destruct P as (Eb & B & _ & Hne). destruct (Hne eq_refl) as [Eo _].
+  assert (Lt : (off s < length (buf s))%nat) by lia.
+  split; [exact Eb|]. split; [exact Eo|]. split; [exact Lt|].
+  destruct Hok as [H1 H2]. split; rewrite Eb; [lia|exact H2].
+Qed.
+
+Lemma src_eta (s : source) : s = mkSrc (buf s) (off s).
+Proof. destruct s; reflexivity. Qed.
+
+(** PeekOpCode leaves the source where it was: its BackUp(1) never wraps. *)
+Lemma peek_opcode_same s c s' : src_ok s -> peek_opcode s = inl (c, s') ->
+  s' = s /\ (off s < length (buf s))%nat.
+Proof.
+  intros Hok. unfold peek_opcode. destruct (read_opcode s) as [[c1 s1]|e] eqn:E; [|discriminate].
+  destruct (read_opcode_ok s c1 s1 Hok E) as (Eb & Eo & Lt & Hok1).
+  intro H. injection H as <- <-. split; [|exact Lt].
+  rewrite (src_eta s1), Eb, Eo, back_up_one; [symmetry; apply src_eta|].
+  destruct Hok as [_ H2]. lia.
+Qed.
+
+Lemma skip_opcode_ok s : src_ok s -> (off s < length (buf s))%nat ->
+  buf (skip_opcode s) = buf s /\ off (skip_opcode s) = S (off s) /\ src_ok (skip_opcode s).
+Proof.
+  intros Hok Lt. unfold skip_opcode. pose proof (next_byte_spec s Hok) as P.
+  destruct (next_byte s) as [[v e] s1]. destruct P as (Eb & B & He & Hne).
+  destruct e; [destruct (He eq_refl) as (_ & _ & X); lia|].
+  destruct (Hne eq_refl) as [Eo _]. split; [exact Eb|]. split; [exact Eo|].
+  destruct Hok as [H1 H2]. split; rewrite Eb; [lia|exact H2].
+Qed.
+
+(** ReadBytes: on success the data returned is a slice of the buffer that ends at the new offset,
+    and the offset has moved forward by at least the opcode byte. *)
+Lemma read_bytes_ok s d s' : src_ok s -> read_bytes s = inl (d, s') ->
+  buf s' = buf s /\ (off s < off s' <= length (buf s))%nat /\ src_ok s' /\
+  (length d <= off s')%nat /\ d = slice (buf s) (off s' - length d) (length d).
+Proof.
+  intros Hok. unfold read_bytes.
+  destruct (read_opcode s) as [[code s1]|e] eqn:E; [|discriminate].
+  destruct (read_opcode_ok s code s1 Hok E) as (Eb1 & Eo1 & Lt & Hok1).
+  assert (Hmid : forall keylen eof bad s2,
+     buf s2 = buf s -> (off s < off s2 <= length (buf s))%nat -> src_ok s2 ->
+     (if eof : bool then inr EUnexpectedEOF
+      else if bad : bool then inr EUnexpectedOpcode
+      else let '(d, eof2, s3) := next_bytes s2 keylen in
+           if eof2 : bool then inr EUnexpectedEOF else inl (d, s3)) = inl (d, s') ->
+     buf s' = buf s /\ (off s < off s' <= length (buf s))%nat /\ src_ok s' /\
+     (length d <= off s')%nat /\ d = slice (buf s) (off s' - length d) (length d)).
+  { intros keylen eof bad s2 Eb2 Bo2 Hok2. destruct eof; [discriminate|]. destruct bad; [discriminate|].
+    pose proof (next_bytes_spec s2 keylen Hok2) as P.
+    destruct (next_bytes s2 keylen) as [[d3 e3] s3]. destruct e3; [discriminate|].
+    intro H. injection H as <- <-. destruct P as (Eb3 & B3 & Ed & _).
+    assert (Ld : length d3 = (off s3 - off s2)%nat).
+    { rewrite Ed. apply slice_length. lia. }
+    assert (B3' : (off s2 <= off s3 <= length (buf s))%nat) by (rewrite <- Eb2; exact B3).
+    split; [congruence|]. split; [lia|]. split.
+    { destruct Hok as [_ H2]. split; rewrite Eb3, Eb2; [lia|exact H2]. }
+    split; [lia|].
+    rewrite Ld. replace (off s3 - (off s3 - off s2))%nat with (off s2) by lia. rewrite <- Eb2. exact Ed. }
+  assert (Huint : forall w, let '(v, e, s2) := next_uint w s1 in
+     buf s2 = buf s /\ (off s < off s2 <= length (buf s))%nat /\ src_ok s2).
+  { intro w. pose proof (next_uint_safe w s1 Hok1) as P. destruct (next_uint w s1) as [[v e] s2].
+    destruct P as [Eb2 B2]. cbn [snd] in *. rewrite Eb1 in *.
+    split; [exact Eb2|]. split; [lia|]. destruct Hok as [_ H2]. split; rewrite Eb2; [lia|exact H2]. }
+  destruct (code =? OP_PUSHDATA4).
+  { pose proof (Huint UINT32_SIZE) as P. unfold next_uint32. destruct (next_uint UINT32_SIZE s1) as [[v e] s2].
+    destruct P as (A & B & C). apply (Hmid v e false s2 A B C). }
+  destruct (code =? OP_PUSHDATA2).
+  { pose proof (Huint UINT16_SIZE) as P. unfold next_uint16. destruct (next_uint UINT16_SIZE s1) as [[v e] s2].
+    destruct P as (A & B & C). apply (Hmid v e false s2 A B C). }
+  destruct (code =? OP_PUSHDATA1).
+  { pose proof (next_byte_safe s1 Hok1) as P. destruct (next_byte s1) as [[v e] s2].
+    destruct P as [Eb2 B2]. cbn [snd] in *. rewrite Eb1 in *.
+    apply (Hmid v e false s2); try lia; try congruence.
+    destruct Hok as [_ H2]. split; rewrite Eb2; [lia|exact H2]. }
+  destruct ((code <=? OP_PUSHBYTES75) && (OP_PUSHBYTES1 <=? code)).
+  { apply (Hmid _ false false s1); try lia; try congruence. }
+  apply (Hmid 0 false true s1); try lia; try congruence.
+Qed.
+
+Lemma read_num_ok s m s' : src_ok s -> read_num s = inl (m, s') ->
+  buf s' = buf s /\ (off s < off s' <= length (buf s))%nat /\ src_ok s'.
+Proof.
+  intros Hok. unfold read_num.
+  destruct (peek_opcode s) as [[code s0]|e] eqn:E; [|discriminate].
+  destruct (peek_opcode_same s code s0 Hok E) as [-> Lt].
+  destruct (skip_opcode_ok s Hok Lt) as (Eb & Eo & Hok').
+  destruct (code =? OP_PUSH0).
+  { intro H. injection H as <- <-. split; [exact Eb|]. split; [lia|exact Hok']. }
+  destruct (small_num code).
+  { intro H. injection H as <- <-. split; [exact Eb|]. split; [lia|exact Hok']. }
+  destruct (read_bytes s) as [[buff s1]|e] eqn:Er; [|discriminate].
+  destruct (read_bytes_ok s buff s1 Hok Er) as (A & B & C & _).
+  destruct (_ || _); [discriminate|]. intro H. injection H as <- <-. auto.
+Qed.
+
+Section Total.
+Variable deser : bytes -> option pubkey.
+
+Lemma read_pubkeys_total fuel : forall s m, src_ok s -> (length (buf s) - off s < fuel)%nat ->
+  match read_pubkeys deser fuel s m with
+  | inr e => e <> EFuel
+  | inl (ks, s') => buf s' = buf s /\ (off s <= off s' <= length (buf s))%nat /\ src_ok s'
+  end.
+Proof.
+  induction fuel as [|f IH]; intros s m Hok Hf; [lia|]. cbn [read_pubkeys].
+  destruct (m =? 0). { split; [reflexivity|]. split; [destruct Hok; lia|exact Hok]. }
+  unfold read_pubkey.
+  destruct (read_bytes s) as [[b s1]|e] eqn:Er.
+  2:{ unfold read_bytes in Er. destruct (read_opcode s) as [[c s1]|e1] eqn:Eo.
+      - destruct (if c =? OP_PUSHDATA4 then _ else _) as [[[kl eof] bad] s2].
+        destruct eof; [congruence|]. destruct bad; [congruence|].
+        destruct (next_bytes s2 kl) as [[d3 e3] s3]. destruct e3; congruence.
+      - unfold read_opcode in Eo. destruct (next_byte s) as [[v e0] s1]. destruct e0; congruence. }
+  destruct (read_bytes_ok s b s1 Hok Er) as (A & B & C & _).
+  destruct (deser b) as [k|]; [|discriminate].
+  specialize (IH s1 (m - 1) C). rewrite A in IH. specialize (IH ltac:(lia)).
+  destruct (read_pubkeys deser f s1 (m - 1)) as [[ks s2]|e]; [|exact IH].
+  destruct IH as (A2 & B2 & C2). split; [congruence|]. split; [lia|exact C2].
+Qed.
+
+End Total.
+
+Lemma read_bytes_err s e : read_bytes s = inr e -> e <> EFuel.
+Proof.
+  unfold read_bytes. destruct (read_opcode s) as [[c s1]|e1] eqn:Eo.
+  - destruct (if c =? OP_PUSHDATA4 then _ else _) as [[[kl eof] bad] s2].
+    destruct eof; [congruence|]. destruct bad; [congruence|].
+    destruct (next_bytes s2 kl) as [[d3 e3] s3]. destruct e3; congruence.
+  - unfold read_opcode in Eo. destruct (next_byte s) as [[v e0] s1]. destruct e0; congruence.
+Qed.
+
+Lemma peek_opcode_err s e : peek_opcode s = inr e -> e <> EFuel.
+Proof.
+  unfold peek_opcode, read_opcode. destruct (next_byte s) as [[v e0] s1]. destruct e0; congruence.
+Qed.
+
+Lemma read_num_err s e : read_num s = inr e -> e <> EFuel.
+Proof.
+  unfold read_num. destruct (peek_opcode s) as [[c s0]|e1] eqn:Ep.
+  - destruct (c =? OP_PUSH0); [discriminate|]. destruct (small_num c); [discriminate|].
+    destruct (read_bytes s0) as [[b s1]|e2] eqn:Er.
+    + destruct (_ || _); congruence.
+    + intro H. injection H as <-. eapply read_bytes_err; exact Er.
+  - intro H. injection H as <-. eapply peek_opcode_err; exact Ep.
+Qed.
+
+Lemma read_buffers_total fuel : forall s, src_ok s -> (length (buf s) - off s < fuel)%nat ->
+  match read_buffers fuel s with
+  | inr e => e <> EFuel
+  | inl (bs, s') => buf s' = buf s /\ (off s <= off s' <= length (buf s))%nat /\ src_ok s'
+  end.
+Proof.
+  induction fuel as [|f IH]; intros s Hok Hf; [lia|]. rewrite read_buffers_S.
+  destruct (peek_opcode s) as [[code s0]|e] eqn:Ep; [|eapply peek_opcode_err; exact Ep].
+  destruct (peek_opcode_same s code s0 Hok Ep) as [-> Lt].
+  destruct (skip_opcode_ok s Hok Lt) as (Eb & Eo & Hok').
+  assert (Hskip : match read_buffers f (skip_opcode s) with
+                  | inr e => e <> EFuel
+                  | inl (bs, s') => buf s' = buf s /\ (off s <= off s' <= length (buf s))%nat /\ src_ok s'
+                  end).
+  { specialize (IH (skip_opcode s) Hok'). rewrite Eb, Eo in IH. specialize (IH ltac:(lia)).
+    destruct (read_buffers f (skip_opcode s)) as [[bs s2]|e]; [|exact IH].
+    destruct IH as (A & B & C). split; [exact A|]. split; [lia|exact C]. }
+  destruct (code =? OP_CHECKMULTISIG). { split; [exact Eb|]. split; [lia|exact Hok']. }
+  destruct (code =? OP_PUSH0). { destruct (read_buffers f (skip_opcode s)) as [[bs s2]|e]; exact Hskip. }
+  destruct (small_num code). { destruct (read_buffers f (skip_opcode s)) as [[bs s2]|e]; exact Hskip. }
+  destruct (read_bytes s) as [[b s1]|e] eqn:Er; [|eapply read_bytes_err; exact Er].
+  destruct (read_bytes_ok s b s1 Hok Er) as (A & B & C & _).
+  specialize (IH s1 C). rewrite A in IH. specialize (IH ltac:(lia)).
+  destruct (read_buffers f s1) as [[bs s2]|e]; [|exact IH].
+  destruct IH as (A2 & B2 & C2). split; [congruence|]. split; [lia|exact C2].
+Qed.
+
+Lemma read_pubkeys_err deser fuel s m e : src_ok s -> (length (buf s) - off s < fuel)%nat ->
+  read_pubkeys deser fuel s m = inr e -> e <> EFuel.
+Proof.
+  intros Hok Hf E. pose proof (read_pubkeys_total deser fuel s m Hok Hf) as P. rewrite E in P. exact P.
+Qed.
+
+(** GetProgramInfo never runs out of loop fuel: on every byte string it returns keys and a
+    threshold, or one of the implementation's errors. *)
+Theorem get_program_info_total deser prog : N.of_nat (length prog) < two64 ->
+  get_program_info deser prog <> inr EFuel.
+Proof.
+  intro Hl. unfold get_program_info. cbv zeta.
+  destruct (length prog <=? 2)%nat; [discriminate|].
+  destruct (last prog 0 =? OP_CHECKSIG).
+  - unfold read_pubkey. destruct (read_bytes _) as [[b s1]|e] eqn:Er.
+    + destruct (deser b); [|discriminate]. destruct (src_len s1 =? 0); discriminate.
+    + intro H. injection H as ->. eapply read_bytes_err; [exact Er|reflexivity].
+  - destruct (last prog 0 =? OP_CHECKMULTISIG); [|discriminate].
+    assert (Hok : src_ok (src_new prog)) by (apply src_new_ok; exact Hl).
+    destruct (read_num (src_new prog)) as [[m s1]|e] eqn:En.
+    2:{ intro H. injection H as ->. eapply read_num_err; [exact En|reflexivity]. }
+    destruct (read_num_ok _ _ _ Hok En) as (A & B & C). cbn [src_new buf off] in A, B.
+    pose proof (read_pubkeys_total deser (S (length prog)) s1 m C) as P1. rewrite A in P1.
+    specialize (P1 ltac:(lia)).
+    destruct (read_pubkeys deser (S (length prog)) s1 m) as [[keys1 s2]|e].
+    2:{ intro H. injection H as ->. apply P1; reflexivity. }
+    destruct P1 as (A2 & B2 & C2).
+    pose proof (read_buffers_total (S (length prog)) s2 C2) as P2. rewrite A2 in P2.
+    specialize (P2 ltac:(lia)).
+    destruct (read_buffers (S (length prog)) s2) as [[buffers s3]|e].
+    2:{ intro H. injection H as ->. apply P2; reflexivity. }
+    destruct (negb (src_len s3 =? 0)); [discriminate|].
+    destruct buffers; [discriminate|].
+    destruct (deser_all deser _); [|discriminate].
+    destruct (negb _); [discriminate|]. destruct (negb _); discriminate.
+Qed.
+
+Lemma read_params_total fuel : forall s, src_ok s -> (length (buf s) - off s < fuel)%nat ->
+  read_params fuel s <> inr EFuel.
+Proof.
+  induction fuel as [|f IH]; intros s Hok Hf; [lia|]. cbn [read_params].
+  destruct (src_len s =? 0); [discriminate|].
+  destruct (read_bytes s) as [[sig s1]|e] eqn:Er.
+  - destruct (read_bytes_ok s sig s1 Hok Er) as (A & B & C & _).
+    specialize (IH s1 C). rewrite A in IH. specialize (IH ltac:(lia)).
+    destruct (read_params f s1); [discriminate|]. congruence.
+  - intro H. injection H as ->. eapply read_bytes_err; [exact Er|reflexivity].
+Qed.
+
+Theorem get_param_info_total prog : N.of_nat (length prog) < two64 -> get_param_info prog <> inr EFuel.
+Proof.
+  intro Hl. unfold get_param_info. apply read_params_total; [apply src_new_ok; exact Hl|]. simpl. lia.
+Qed.
+
+(** Every string GetParamInfo returns lies inside the script. *)
+Lemma read_params_in_bounds fuel : forall s sigs, src_ok s -> read_params fuel s = inl sigs ->
+  Forall (fun d => exists o, (o + length d <= length (buf s))%nat /\ d = slice (buf s) o (length d)) sigs.
+Proof.
+  induction fuel as [|f IH]; intros s sigs Hok; [discriminate|]. cbn [read_params].
+  destruct (src_len s =? 0). { intro H. injection H as <-. constructor. }
+  destruct (read_bytes s) as [[sig s1]|e] eqn:Er; [|discriminate].
+  destruct (read_bytes_ok s sig s1 Hok Er) as (A & B & C & D & E).
+  destruct (read_params f s1) as [rest|] eqn:Ep; [|discriminate].
+  intro H. injection H as <-. constructor.
+  - exists (off s1 - length sig)%nat. split; [lia|exact E].
+  - specialize (IH s1 rest C Ep). rewrite A in IH. exact IH.
+Qed.
